@@ -426,6 +426,9 @@ func c11Body(r *vlib.Run) int {
 			}
 		}
 	}
+	// end-to-end denotation: the query travels the real way (client encodes the
+	// map command, the server-side handler decodes and parses it again)
+	c11E2E(r, valids, cases, nv, scratch)
 	os.RemoveAll(scratch)
 	// concurrent parsing tier
 	var ccases []interface{}
@@ -453,6 +456,72 @@ func c11Body(r *vlib.Run) int {
 		}
 	}
 	return (nValid + nMal) / 2
+}
+
+func c11E2E(r *vlib.Run, valids []*c11Valid, cases []interface{}, nv int, scratch string) {
+	max := r.N(150, 2500)
+	var idx []int
+	for i := 0; i < nv && len(idx) < max; i++ {
+		if c, ok := cases[i].(c11Case); ok && c.Pipe != nil {
+			idx = append(idx, i)
+		}
+	}
+	os.MkdirAll(scratch, 0755)
+	vlib.Parallel(len(idx), 12, func(k int) {
+		i := idx[k]
+		v := valids[i]
+		q := v.Q
+		in := filepath.Join(scratch, fmt.Sprintf("e2e-in-%d.log", i))
+		lines := v.T.Lines
+		if v.T.Format == "csv" {
+			lines = append([]string{strings.Join(v.T.CSVHeader, ",")}, lines...)
+		}
+		body := strings.Join(lines, "\n")
+		if len(lines) > 0 {
+			body += "\n"
+		}
+		os.WriteFile(in, []byte(body), 0644)
+		defer os.Remove(in)
+		os.Remove(q.Outfile.Path)
+		res := runServerless(r, "dmap", []string{"--noColor", "--files", in, "--query", v.Text}, "", nil)
+		r.Eval("")
+		r.Count("e2e_denotation_runs", 1)
+		if res.TimedOut {
+			r.Inconclusive("dmap-watchdog")
+			return
+		}
+		d := map[string]interface{}{"query": v.Text, "abstract": q, "table": v.T, "exit": res.Exit, "hung": res.Hung,
+			"stderr": vlib.Trunc(string(res.Stderr), 1000), "stdout": vlib.Trunc(string(res.Stdout), 600)}
+		if res.Hung || res.Exit != 0 || res.Panicked() {
+			r.Violation("e2e-dmap-failed", d)
+			return
+		}
+		b, err := os.ReadFile(q.Outfile.Path)
+		os.Remove(q.Outfile.Path)
+		os.Remove(q.Outfile.Path + ".query")
+		if err != nil {
+			d["err"] = err.Error()
+			r.Violation("e2e-no-outfile", d)
+			return
+		}
+		var ls []mq.Line
+		for _, l := range tableFilter(v.T.Format, q.Table, v.T.Lines) {
+			ls = append(ls, mq.Line{Text: l, Server: "x"})
+		}
+		if q.UsesHostname() {
+			return // the serverless host name is not under the harness' control
+		}
+		groups := q.Evaluate(v.T.Format, ls, v.T.CSVHeader)
+		h, rows := mq.ParseCSV(string(b))
+		if q.Outfile.Append {
+			return
+		}
+		if why := q.CheckResult(groups, h, rows); why != "" {
+			d["why"] = why
+			d["csv"] = vlib.Trunc(string(b), 1200)
+			r.Violation("e2e-denotation-mismatch", d)
+		}
+	})
 }
 
 func c11CheckValid(r *vlib.Run, i int, v *c11Valid, res *c11Result) {
